@@ -8,7 +8,10 @@
 //
 //   --mode cuts    bounded exhaustive: every single cut and every pair of cuts of a fixed set of short request
 //                  streams (each followed by a second client that must be served)
-//   --mode random  (default) everything sampled
+//                  (--pairs 0: single cuts only)
+//   --mode random  (default) everything sampled; --n cases. Opt-in extension --abort 1: some clients hang up
+//                  midway (outside the statement's quantifier; nothing is asserted for them, the next client
+//                  must still be served)
 //
 // Oracles (all evaluated from what the simulated clients / origins observed, see evaluate()):
 //   origin side : method, origin-form target, header map (+ host when missing), host:port the request arrived on
